@@ -115,7 +115,8 @@ Theorem C06_absent_notfound_oci : forall h g,
   let s := fst (run oci_step oci_init h) in
   get N.eqb g (o_blobs s) = None /\
   forall d r, d_dig d = g -> snd (oci_step s (Fetch d)) = OErr ENotFound /\
-                             (r <> REmpty -> snd (oci_step s (Tag d r)) = OErr ENotFound) /\
+                             (r <> REmpty -> foreign_digest_ref d r = false ->
+                              snd (oci_step s (Tag d r)) = OErr ENotFound) /\
                              snd (oci_step s (Exists d)) = OBool false /\
                              snd (oci_step s (Delete d)) = OErr ENotFound.
 Proof. exact oci_never_pushed_absent. Qed.
@@ -223,10 +224,10 @@ Theorem C06_quiescent_serialisable_oci_partial :
 Proof. exact quiescent_serialisable_oci. Qed.
 Print Assumptions C06_quiescent_serialisable_oci_partial.
 
-(* The complete statement (the part missing above): with the additional hypothesis that a
-   reference is never another node's digest string (wf2_op), EVERY Resolve answer --
-   names, digest strings (resolver entry or blob fallback), the empty reference -- at
-   quiescence is the one of the sequential order. *)
+(* The complete statement: EVERY Resolve answer -- names, digest strings (resolver entry or
+   blob fallback), the empty reference -- at quiescence is the one of the sequential order.
+   (wf2_op is wf_op: Store.Tag itself refuses another content's digest string as reference,
+   and its graph.Index step on manifest descriptors is one of the atomic steps.) *)
 Theorem C06_quiescent_serialisable_oci :
   forall (U : N -> gkey), (forall g, k_dig (U g) = g) ->
   forall (B : N -> blob) (progs : list (list op)) (sched : list nat),
